@@ -239,10 +239,7 @@ func mkEq(a, b *Term) *Term {
 		}
 	}
 	if a.sort == SStr {
-		// cheap syntactic disequality: two concatenations with different constant heads
-		if r, ok := strEqQuick(a, b); ok {
-			return mkBool(r)
-		}
+		return strEq(a, b)
 	}
 	return mk("=", SBool, a, b)
 }
@@ -996,3 +993,169 @@ const smtPreamble = `
 (define-fun wrapu32 ((x Int)) Int (mod x 4294967296))
 (define-fun wrapu64 ((x Int)) Int (mod x 18446744073709551616))
 `
+
+// ---------- string equality simplification ----------
+
+func strParts(t *Term) []*Term {
+	if t.op == "str.++" {
+		var out []*Term
+		for _, a := range t.args {
+			out = append(out, strParts(a)...)
+		}
+		return out
+	}
+	if t.op == "c" && t.s == "" {
+		return nil
+	}
+	return []*Term{t}
+}
+
+func joinParts(ps []*Term) *Term {
+	var r *Term = mkStr("")
+	for _, p := range ps {
+		r = mkConcat(r, p)
+	}
+	return r
+}
+
+// intOfFromInt recognises renderings of an integer (see mkFromInt) and returns the integer term.
+func intOfFromInt(s *Term) (*Term, bool) {
+	if s.op == "str.from_int" && s.args[0].lo != nil && s.args[0].lo.Sign() >= 0 {
+		return s.args[0], true
+	}
+	if s.op == "ite" && s.args[2].op == "str.from_int" && s.args[0].op == "<" && sameTerm(s.args[0].args[0], s.args[2].args[0]) {
+		if z, ok := s.args[0].args[1].constInt(); ok && z == 0 {
+			return s.args[2].args[0], true
+		}
+	}
+	return nil, false
+}
+
+func canonicalInt(s string) (*big.Int, bool) {
+	if s == "" {
+		return nil, false
+	}
+	body := s
+	if s[0] == '-' {
+		body = s[1:]
+		if body == "" || body == "0" {
+			return nil, false
+		}
+	}
+	if len(body) > 1 && body[0] == '0' {
+		return nil, false
+	}
+	for _, c := range body {
+		if c < '0' || c > '9' {
+			return nil, false
+		}
+	}
+	v, ok := new(big.Int).SetString(s, 10)
+	return v, ok
+}
+
+func strEq(a, b *Term) *Term {
+	pa, pb := strParts(a), strParts(b)
+	// strip common constant prefix
+	for len(pa) > 0 && len(pb) > 0 {
+		x, y := pa[0], pb[0]
+		if x.op == "c" && y.op == "c" {
+			n := len(x.s)
+			if len(y.s) < n {
+				n = len(y.s)
+			}
+			if x.s[:n] != y.s[:n] {
+				return tFalse
+			}
+			if len(x.s) == n {
+				pa = pa[1:]
+			} else {
+				pa = append([]*Term{mkStr(x.s[n:])}, pa[1:]...)
+			}
+			if len(y.s) == n {
+				pb = pb[1:]
+			} else {
+				pb = append([]*Term{mkStr(y.s[n:])}, pb[1:]...)
+			}
+			continue
+		}
+		if sameTerm(x, y) {
+			pa, pb = pa[1:], pb[1:]
+			continue
+		}
+		break
+	}
+	// strip common constant suffix
+	for len(pa) > 0 && len(pb) > 0 {
+		x, y := pa[len(pa)-1], pb[len(pb)-1]
+		if x.op == "c" && y.op == "c" {
+			n := len(x.s)
+			if len(y.s) < n {
+				n = len(y.s)
+			}
+			if x.s[len(x.s)-n:] != y.s[len(y.s)-n:] {
+				return tFalse
+			}
+			if len(x.s) == n {
+				pa = pa[:len(pa)-1]
+			} else {
+				pa = append(append([]*Term(nil), pa[:len(pa)-1]...), mkStr(x.s[:len(x.s)-n]))
+			}
+			if len(y.s) == n {
+				pb = pb[:len(pb)-1]
+			} else {
+				pb = append(append([]*Term(nil), pb[:len(pb)-1]...), mkStr(y.s[:len(y.s)-n]))
+			}
+			continue
+		}
+		if sameTerm(x, y) {
+			pa, pb = pa[:len(pa)-1], pb[:len(pb)-1]
+			continue
+		}
+		break
+	}
+	if len(pa) == 0 && len(pb) == 0 {
+		return tTrue
+	}
+	if len(pa) == 0 || len(pb) == 0 {
+		rest := pa
+		if len(pa) == 0 {
+			rest = pb
+		}
+		// rest must be empty
+		for _, p := range rest {
+			if p.op == "c" && p.s != "" {
+				return tFalse
+			}
+			if _, ok := intOfFromInt(p); ok {
+				return tFalse
+			}
+		}
+		r := tTrue
+		for _, p := range rest {
+			r = mkAnd(r, mk("=", SBool, p, mkStr("")))
+		}
+		return r
+	}
+	if len(pa) == 1 && len(pb) == 1 {
+		x, y := pa[0], pb[0]
+		ix, okx := intOfFromInt(x)
+		iy, oky := intOfFromInt(y)
+		if okx && oky {
+			return mkEq(ix, iy)
+		}
+		if okx && y.op == "c" {
+			if v, ok := canonicalInt(y.s); ok {
+				return mkEq(ix, mkIntBig(v))
+			}
+			return tFalse
+		}
+		if oky && x.op == "c" {
+			if v, ok := canonicalInt(x.s); ok {
+				return mkEq(iy, mkIntBig(v))
+			}
+			return tFalse
+		}
+	}
+	return mk("=", SBool, joinParts(pa), joinParts(pb))
+}
